@@ -13,9 +13,9 @@ def val(f, x):
     return (f["idx"] * 37 + x * 11) % 500 + 1
 
 
-def call(f, x):
+def call(f, x, ln=8):
     ok = "ok" if (not f["is_result"] or x % 3 != 0) else "err"
-    return "call %d %d 0 %s %d 8 0 1" % (f["idx"], x, ok, val(f, x))
+    return "call %d %d 0 %s %d %d 0 1" % (f["idx"], x, ok, val(f, x), ln)
 
 
 def main():
@@ -65,6 +65,14 @@ def main():
                 special.append((f, fill, ["age %d 0 %d" % (f["idx"], age)], call(f, L), call(f, 0), pause, probes))
                 special.append((f, fill, ["age %d 0 %d" % (f["idx"], age)], call(f, 0), call(f, L), pause, probes))
                 special.append((f, fill, ["age %d 0 %d" % (f["idx"], age)], "invw %d 1" % f["idx"], call(f, 0), pause, probes))
+    # memory pressure: two concurrent stores of values that each fit max_memory alone but not together
+    # (String payloads: size = 24 + length), first into an empty cache, then beside a resident entry
+    for f in fns:
+        if f["mem"] and f["ret"] in (1, 3) and f["mem"] >= 64:
+            ln = f["mem"] // 2 - 20
+            for pause in range(1, 9):
+                special.append((f, [], [], call(f, 1, ln), call(f, 2, ln), pause, [call(f, 4), call(f, 1, ln)]))
+                special.append((f, [call(f, 4)], [], call(f, 1, ln), call(f, 2, ln), pause, [call(f, 5), call(f, 2, ln)]))
     # an operation on all caches racing the FIRST call (registration) of a function never used before
     fresh = [g for g in allf if g["fl"] != "t" and g["sig"] == 0 and not g["gates"] and g["ret"] == 0]
     for n, f in enumerate(fns[:6]):
